@@ -78,6 +78,25 @@ inductive FontRef where
   | direct (spec : FontSpec)
 deriving DecidableEq, Repr
 
+/-- graphics operators of a content stream that touch the interpreter's per-page state -/
+inductive GOp where
+  /-- `x y w h re`: appends the five segments m l l l h -/
+  | re
+  | m
+  | l
+  | h
+  /-- a painting operator (`S`, `f`, …): hands the current path to the device and clears it -/
+  | paint
+  /-- `n`: clears the current path without painting -/
+  | n
+  | q
+  | Q
+  /-- `v w`: line width (stands for every graphics-state parameter saved by `q`) -/
+  | w (v : Nat)
+  /-- an operand that no operator consumes (stays on the argument stack) -/
+  | operand (v : Nat)
+deriving DecidableEq, Repr
+
 structure PageSpec where
   /-- objects read to reach and construct the page (tree walk, `PDFPage.__init__`) -/
   walk : List Nat
@@ -87,6 +106,8 @@ structure PageSpec where
   reads : List Nat
   /-- text-showing operations in paint order: (index into `fonts`, character codes) -/
   shows : List (Nat × List Nat)
+  /-- path construction / painting / graphics-state operators of the page's own content, in order -/
+  gops : List GOp
 deriving DecidableEq, Repr
 
 structure DocSpec where
@@ -292,18 +313,79 @@ def getFonts (W : World) (d : DocSpec) (caching : Bool) : Caches → Tables → 
     let xs := getFonts W d caching x.2.1 x.2.2 rs
     (x.1 :: xs.1, xs.2.1, xs.2.2)
 
-/-- result of one page: payloads of everything read, and the decoded glyphs of every show -/
+/-! ### the interpreter's own state (`PDFPageInterpreter`: curpath, gstack, graphicstate, argstack) -/
+
+structure Interp where
+  /-- the path under construction: 0 = m, 1 = l, 2 = h -/
+  curpath : List Nat
+  /-- graphics states saved by `q` (their line width) -/
+  gstack : List Nat
+  /-- current line width -/
+  lw : Nat
+  /-- operands waiting for an operator -/
+  argstack : List Nat
+deriving DecidableEq, Repr
+
+def Interp.init : Interp := ⟨[], [], 0, []⟩
+
+/-- `init_state`, called by `render_contents` for every page: the per-page state starts afresh,
+whatever the previous page left behind. -/
+def initState (_left : Interp) : Interp := Interp.init
+
+/-- `paint_path` splits the path at every `m` (regex `m[^m]+`): subpaths of one segment vanish, a
+path that does not begin with `m` is ignored. -/
+def subpathsAux : List Nat → List Nat → List (List Nat) → List (List Nat)
+  | [], cur, acc => (if cur.length > 1 then acc ++ [cur] else acc)
+  | s :: rest, cur, acc =>
+    if s = 0 then subpathsAux rest [0] (if cur.length > 1 then acc ++ [cur] else acc)
+    else subpathsAux rest (cur ++ [s]) acc
+
+def subpaths (path : List Nat) : List (List Nat) :=
+  match path with
+  | 0 :: rest => subpathsAux rest [0] []
+  | _ => []
+
+/-- a painted shape as the device sees it: (number of segments, line width) -/
+abbrev Shape := Nat × Nat
+
+def stepG (i : Interp) : GOp → Interp × List Shape
+  | .re => ({ i with curpath := i.curpath ++ [0, 1, 1, 1, 2] }, [])
+  | .m => ({ i with curpath := i.curpath ++ [0] }, [])
+  | .l => ({ i with curpath := i.curpath ++ [1] }, [])
+  | .h => (if i.curpath.getLast? = some 2 then i else { i with curpath := i.curpath ++ [2] }, [])
+  | .paint => ({ i with curpath := [] }, (subpaths i.curpath).map (fun sp => (sp.length, i.lw)))
+  | .n => ({ i with curpath := [] }, [])
+  | .q => ({ i with gstack := i.lw :: i.gstack }, [])
+  | .Q => (match i.gstack with
+           | [] => i
+           | v :: rest => { i with lw := v, gstack := rest }, [])
+  | .w v => ({ i with lw := v }, [])
+  | .operand v => ({ i with argstack := i.argstack ++ [v] }, [])
+
+def runG : Interp → List GOp → Interp × List Shape
+  | i, [] => (i, [])
+  | i, op :: ops =>
+    let r := stepG i op
+    let rs := runG r.1 ops
+    (rs.1, r.2 ++ rs.2)
+
+/-- result of one page: payloads of everything read, the decoded glyphs of every show, the painted shapes -/
 structure PageOut where
   vals : List (Option Nat)
   glyphs : List (List (List Nat))
+  shapes : List Shape
 deriving DecidableEq, Repr
 
-def processPage (W : World) (d : DocSpec) (caching : Bool) (c : Caches) (t : Tables) (pg : PageSpec) :
-    PageOut × Caches × Tables :=
+/-- `left` is what the interpreter was left with by the previous page of the same call -/
+def processPage (W : World) (d : DocSpec) (caching : Bool) (c : Caches) (t : Tables) (left : Interp)
+    (pg : PageSpec) : PageOut × Caches × Tables :=
   let w := readMany d caching c pg.walk
   let f := getFonts W d caching w.2 t pg.fonts
   let r := readMany d caching f.2.1 pg.reads
-  (⟨w.1 ++ r.1, pg.shows.map (decodeShow f.1)⟩, r.2, f.2.2)
+  (⟨w.1 ++ r.1, pg.shows.map (decodeShow f.1), (runG (initState left) pg.gops).2⟩, r.2, f.2.2)
+
+/-- the interpreter state a page leaves behind -/
+def interpAfter (left : Interp) (pg : PageSpec) : Interp := (runG (initState left) pg.gops).1
 
 /-! ### the same page computed without any cache, from fresh values only (the specification) -/
 
@@ -318,7 +400,8 @@ def freshFont (W : World) (d : DocSpec) : FontRef → Option Font
     | some spec => some (fontOf W spec (freshObj d n :: spec.reads.map (freshObj d)))
 
 def freshPage (W : World) (d : DocSpec) (pg : PageSpec) : PageOut :=
-  ⟨(pg.walk ++ pg.reads).map (freshObj d), pg.shows.map (decodeShow (pg.fonts.map (freshFont W d)))⟩
+  ⟨(pg.walk ++ pg.reads).map (freshObj d), pg.shows.map (decodeShow (pg.fonts.map (freshFont W d))),
+   (runG Interp.init pg.gops).2⟩
 
 /-! ### page iterators and the process state -/
 
@@ -336,6 +419,8 @@ structure Handle where
   todo : List Nat
   pos : Nat
   c : Caches
+  /-- what the interpreter of this call was left with by the last interpreted page -/
+  interp : Interp
 deriving DecidableEq, Repr
 
 structure State where
@@ -365,7 +450,7 @@ deriving DecidableEq, Repr
 
 def openHandle (d : DocSpec) (caching : Bool) (sel : List Nat) : Handle :=
   { doc := d, caching := caching, todo := selPages d.pages.length sel, pos := 0,
-    c := (readMany d caching Caches.empty d.openReads).2 }
+    c := (readMany d caching Caches.empty d.openReads).2, interp := Interp.init }
 
 /-- one `next()` on a page iterator -/
 def advance (W : World) (h : Handle) (t : Tables) : Out × Handle × Tables :=
@@ -377,8 +462,8 @@ def advance (W : World) (h : Handle) (t : Tables) : Out × Handle × Tables :=
     match h.doc.pages[k]? with
     | none => (.done, { h with todo := [] }, t)
     | some pg =>
-      let r := processPage W h.doc h.caching (walkRange h.doc h.caching h.c h.pos k) t pg
-      (.page r.1, { h with todo := rest, pos := k + 1, c := r.2.1 }, r.2.2)
+      let r := processPage W h.doc h.caching (walkRange h.doc h.caching h.c h.pos k) t h.interp pg
+      (.page r.1, { h with todo := rest, pos := k + 1, c := r.2.1, interp := interpAfter h.interp pg }, r.2.2)
 
 /-- all remaining pages of a handle (the body of `extract_pages` / `extract_text`) -/
 def drain (W : World) : Nat → Handle → Tables → List PageOut × Handle × Tables
